@@ -17,7 +17,7 @@ from concurrent.futures import ThreadPoolExecutor
 from common import *
 import c07_cache_keys
 
-COQ_FILES = ['C07/Model.v', 'Gen/C07CacheKeys.v', 'C07/Proofs.v', 'C07/Props.v']
+COQ_FILES = ['C07/Model.v', 'Gen/C07CacheKeys.v', 'C07/Proofs.v', 'C07/Args.v', 'C07/Props.v']
 IMPL = os.path.join(os.path.dirname(os.path.abspath(__file__)), 'impl_c07.py')
 WORKDIR = os.path.join(WORK, 'c07')     # common.WORK is private to this invocation and removed at exit
 KNOWN_SIG = 'C07/stale-cached-engine-after-non-rules-load'
@@ -660,7 +660,7 @@ def shrink(uni, hist, pos, sig, pool, budget=40):
 
 # ---- model side ---------------------------------------------------------------------------------------
 HEADER = r'''From Coq Require Import String List Bool Arith NArith.
-From Tally Require Import C07.Model.
+From Tally Require Import C07.Model C07.Args Gen.C07CacheKeys.
 Import ListNotations.
 Open Scope string_scope.
 Definition sbytes (l : list N) : string := fold_right (fun n s => String (Ascii.ascii_of_N n) s) EmptyString l.
@@ -731,6 +731,39 @@ Fixpoint walk (T : tabs) (fx : bool) (st : state (tw T)) (h : list ((nat * nat *
       && same_set (added (rcache (cs (tw T) st)) (rcache (cs (tw T) st'))) (snd k)
       && Nat.eqb (match cached (tw T) st' with Some f => f | None => 0 end) origin
       && walk T fx st' r
+  end.
+(* ---- C07/Args.v against the implementation: engine.parse / engine.match / evaluate_transaction histories with the
+   supplemental rows as an explicit per-call argument (0 = none passed, 1 = the universe's rows, 2 = other rows) *)
+Record atabs := { t_am : list ((nat * nat * nat) * nat);            (* (parsed file, base txn, rows) -> result *)
+                  t_ae : list ((string * nat) * nat * nat) }.       (* ((source, base txn), rows, value) *)
+Definition rid (d : option nat) : nat := match d with Some r => r | None => 0 end.
+Fixpoint find_ae (s : string) (t r : nat) (m : list ((string * nat) * nat * nat)) : nat :=
+  match m with
+  | [] => 0
+  | ((s', t'), r', v) :: rest => if String.eqb s s' && Nat.eqb t t' && Nat.eqb r r' then v else find_ae s t r rest
+  end.
+Definition aw (T : atabs) : aworld := {|
+  afile := nat; arules := nat; atxn := nat; arows := nat; ascope := unit; ares := nat; aval := nat;
+  aparse := fun f => f; aempty := 0; empty_scope := tt;
+  amatch := fun e t d s => (match find eq3 (e, t, rid d) (t_am T) with Some r => r | None => 0 end, s);
+  aeval := fun src t d s => (find_ae src t (rid d) (t_ae T), s) |}.
+Definition adecode (T : atabs) (c : nat * nat * nat * string) : aop (aw T) :=
+  let '(tag, a, r, s) := c in
+  let d := match r with 0 => None | _ => Some r end in
+  match tag with 3 => @AParse (aw T) a | 4 => @AMatch (aw T) a d | _ => @AEval (aw T) s a d end.
+Definition source_design : design :=
+  {| remembers_rows := negb C07CacheKeys.engine_match_write_free; shares_scope := negb C07CacheKeys.scope_per_evaluation |}.
+Fixpoint awalk (T : atabs) (st : astate (aw T)) (h : list ((nat * nat * nat * string) * nat)) : bool :=
+  match h with
+  | [] => true
+  | (c, id) :: r =>
+      let so := astep (aw T) source_design st (adecode T c) in
+      (match snd so with AParsed => true | ARes x => Nat.eqb x id | AVal v => Nat.eqb v id end) && awalk T (fst so) r
+  end.
+Fixpoint afailing_h (T : atabs) (i : nat) (hs : list (list ((nat * nat * nat * string) * nat))) : list nat :=
+  match hs with
+  | [] => []
+  | h :: r => if awalk T (ainit (aw T)) h then afailing_h T (S i) r else i :: afailing_h T (S i) r
   end.
 Fixpoint failing_h (T : tabs) (fx : bool) (i : nat) (hs : list (list ((nat * nat * string) * obs))) : list nat :=
   match hs with
@@ -831,7 +864,36 @@ def model_tables(uni, hists, results, fresh, fx, pool):
             ofile = 0 if org is None else (997 if org == 'unknown' else fid[h[org]['file']])
             row.append(f'({code}, ({oid}, {cbool(flag)}, {ckeys(r)}, {ofile}))')
         obs.append('[' + '; '.join(row) + ']')
-    return tabs, obs
+    # ---- C07/Args.v: histories made only of engine.parse / engine.match / evaluate_transaction
+    txns = uni['txns']
+
+    def base(j):
+        core = {k: v for k, v in txns[j].items() if k not in ('ds', 'tag')}
+        return next(i for i, t in enumerate(txns) if {k: v for k, v in t.items() if k not in ('ds', 'tag')} == core)
+
+    def rows_id(j):
+        return {'none': 0, 'alt': 2}.get(txns[j].get('ds'), 1)
+    am, ae, aobs = {}, {}, []
+    for h, res in zip(hists, results):
+        if not all(o['op'] in ('engparse', 'engmatch') or (o['op'] == 'eval' and o['txn'] != 'filter') for o in h):
+            continue
+        row = []
+        for (st, o), r in zip(zip(mirror_states(h, fresh, fx), h), res):
+            if o['op'] == 'engparse':
+                row.append(f'((3, {fid[o["file"]]}, 0, ""), 0)')
+                continue
+            fr = fresh.get(minimal_history(st, o), o)
+            j = o['txn']
+            if o['op'] == 'engmatch':
+                am[(fid[st[2]], base(j), rows_id(j))] = intern(fr['out'])
+                row.append(f'((4, {base(j)}, {rows_id(j)}, ""), {intern(r["out"])})')
+            else:
+                ae[(o['src'], base(j), rows_id(j))] = intern(fr['out'])
+                row.append(f'((2, {base(j)}, {rows_id(j)}, {coq_str(o["src"])}), {intern(r["out"])})')
+        aobs.append('[' + '; '.join(row) + ']')
+    atabs = ('{| t_am := [' + '; '.join(f'(({a}, {b}, {c}), {v})' for (a, b, c), v in am.items()) + '];\n  t_ae := [' +
+             '; '.join(f'(({coq_str(a)}, {b}), {c}, {v})' for (a, b, c), v in ae.items()) + '] |}')
+    return tabs, obs, atabs, aobs
 
 
 def model_check(unis, all_hists, all_results, freshes, fx, pool, name='C07'):
@@ -847,13 +909,20 @@ def model_check(unis, all_hists, all_results, freshes, fx, pool, name='C07'):
         chunks.append(cur)
 
     bodies = []
+    args_n = [0]
+    model_check.args_histories = 0
     for ci, uis in enumerate(chunks):          # phase 1: oracle tables (fresh interpreters, <= PAR at a time)
         body = []
         for ui in uis:
-            tabs, obs = model_tables(unis[ui], all_hists[ui], all_results[ui], freshes[ui], fx, pool)
+            tabs, obs, atabs, aobs = model_tables(unis[ui], all_hists[ui], all_results[ui], freshes[ui], fx, pool)
+            args_n[0] += len(aobs)
             body.append(f'Definition T{ui} : tabs := {tabs}.\nDefinition H{ui} : list (list ((nat * nat * string) * obs)) := [\n' +
                         ';\n'.join(obs) + '\n].\n')
-        body.append('Eval vm_compute in [' + '; '.join(f'({ui}, failing_h T{ui} {cbool(fx)} 0 H{ui})' for ui in uis) + '].\n')
+            body.append(f'Definition AT{ui} : atabs := {atabs}.\nDefinition AH{ui} : list (list ((nat * nat * nat * string) * nat)) := [\n' +
+                        ';\n'.join(aobs) + '\n].\n')
+        # one list: the main model's failing histories, then (1000 + universe) for the Args model's
+        body.append('Eval vm_compute in [' + '; '.join(f'({ui}, failing_h T{ui} {cbool(fx)} 0 H{ui}); ({1000 + ui}, afailing_h AT{ui} 0 AH{ui})'
+                                                        for ui in uis) + '].\n')
         bodies.append((ci, uis, '\n'.join(body)))
 
     def one(ci, uis, body):                     # phase 2: the model, inside coqc
@@ -867,10 +936,16 @@ def model_check(unis, all_hists, all_results, freshes, fx, pool, name='C07'):
                 return None, n, (out + err)[-1500:]
             for um in re.finditer(r'\(\s*(\d+)(?:%nat)?,\s*\[([^\]]*)\]\)', m.group(1)):
                 ui = int(um.group(1))
+                if ui >= 1000:                      # the Args model: index within that universe's Args histories
+                    for x in um.group(2).replace('%nat', '').split(';'):
+                        if x.strip():
+                            bad.append((ui - 1000, -1 - int(x)))
+                    continue
                 n += len(all_hists[ui])
                 for x in um.group(2).replace('%nat', '').split(';'):
                     if x.strip():
                         bad.append((ui, int(x)))
+    model_check.args_histories = args_n[0]
     return bad, n, ''
 
 
@@ -1026,6 +1101,12 @@ def main(tier):
         if bad is None:
             broken.append({'kind': 'broken-correspondence', 'obligation': 'model_vs_impl(C07.Model.step, in-process history)',
                            'detail': 'cases.v did not evaluate: ' + err})
+        elif bad and bad[0][1] < 0:
+            ui, k = bad[0]
+            ah = [h for h in all_hists[ui] if all(o['op'] in ('engparse', 'engmatch') or (o['op'] == 'eval' and o['txn'] != 'filter')
+                                                  for o in h)]
+            broken.append({'kind': 'broken-correspondence', 'obligation': 'model_vs_impl(C07.Args.astep, engine.match / evaluate_transaction history)',
+                           'detail': {'universe': unis[ui], 'history': ah[-1 - k], 'n': len(bad)}})
         elif bad:
             ui, hi = bad[0]
             broken.append({'kind': 'broken-correspondence', 'obligation': 'model_vs_impl(C07.Model.step, in-process history)',
@@ -1052,7 +1133,7 @@ def main(tier):
                 nontrivial.add(json.dumps([ui, h], sort_keys=True))
     spawned = sum(f.spawned for f in freshes)
     run.cov.update({
-        'evaluations': n_cmp + model_n, 'distinct_nontrivial': len(nontrivial),
+        'evaluations': n_cmp + model_n + getattr(model_check, 'args_histories', 0), 'distinct_nontrivial': len(nontrivial),
         'rule': 'histories of 2-12 operations {load A|B|C|D|E|none, classify (normalize_merchant or parse_generic_csv), evaluate '
                 '(transaction or view expression), engine.parse, engine.match} over generated universes of 3-4 rule files (.rules, CSV, '
                 'one unparsable .rules; overlapping patterns, different categories, case/whitespace twins of expressions and regexes, '
@@ -1065,7 +1146,8 @@ def main(tier):
         'samples': [{'universe_files': unis[0]['files'], 'history': all_hists[0][0]}, {'history': all_hists[-1][-1]}],
         'universes': len(unis), 'histories': sum(map(len, all_hists)), 'in_process_vs_fresh_comparisons': n_cmp,
         'fresh_interpreters_spawned': spawned, 'history_length_histogram': hist_len, 'loads_per_history_histogram': nloads,
-        'model_vs_impl_histories_in_coq': model_n, 'model_variant': 'reset at entry (as /repo since e98b1f7)' if fx else 'NO reset (regression to before e98b1f7)',
+        'model_vs_impl_histories_in_coq': model_n,
+        'args_model_vs_impl_histories_in_coq': getattr(model_check, 'args_histories', 0), 'model_variant': 'reset at entry (as /repo since e98b1f7)' if fx else 'NO reset (regression to before e98b1f7)',
         'failing_signatures': {k: len(v) for k, v in failing.items()}, 'translation_failures': tfails,
         'discards': discards, 'phase_seconds': phases, 'files_by_load_outcome': kinds,
         'claimed_for_this_tree': ['c07_history_independent_fixed', 'c07_history_independent_of_source',
